@@ -153,7 +153,7 @@ impl Property for C01 {
         let cfg = PartCfg {
             name: "history",
             rule: "random call histories (all op kinds, commits/clears/reopens, several reorgs inside and outside the window); non-trivial = an accepted reorg below the current height that orphans at least one state-changing block; distinct by serialised history",
-            cases: ctx.tier.pick(320, 8000),
+            cases: ctx.tier.pick(900, 12_000),
             max_shrink_iters: ctx.tier.pick(250, 1000),
         };
         explore(ctx, ev, &cfg, strategy, check)
